@@ -752,6 +752,27 @@ def run(prog, tier, seed):
         results = results + adopt(T.results(T(c13.rule_g0, prog, adj)), PROP,
                                   'the graphs compute_SCCs is given')
 
+    def _independent_graphs(prog):
+        # a graph derived from G (clone / reversed / subgraph) shares no
+        # successor set with it: otherwise editing one of them changes the
+        # edges compute_SCCs reads from the other
+        r1, r2 = c13.rule_g12(prog, adj)
+        return r1
+    if adj:
+        results = results + adopt(T.results(T(_independent_graphs, prog)),
+                                  PROP, 'graphs derived from G are '
+                                  'independent of it')
+
+    def _kripke_clone(prog):
+        from . import c14
+        r = c14.rule_k4(prog, adj)
+        r.findings = [f for f in r.findings if 'clone' in f.key]
+        return r
+    if adj:
+        results = results + adopt(T.results(T(_kripke_clone, prog)), PROP,
+                                  'clone() of the Kripke subclass (a graph '
+                                  'compute_SCCs is given)')
+
     def _opaque_nodes(prog):
         from . import c06
         r = c06.rule_opq1(prog)
